@@ -65,13 +65,13 @@ theorem present_iff_not_nil (t : Ty) (v : Val) (h : t.isPtr = false) (hty : (Ty.
 /-- protobuf repeated field (`ProtoSliceWrapper`): one frame per element, each
 under the caller's tag; a nil pointer element gets the empty frame `tag ++ [0]`. -/
 theorem frame_proto_slice (t : Ty) (vs : List Val) (tag : Bytes)
-    (hwf : (Ty.pslice t).wf) (hty : (Ty.pslice t).hasTy (.slice vs))
-    (hr : t.deref.isProtoRep = false) (ht : tag ≠ []) :
+    (hwf : (Ty.pslice t).wf) (hty : (Ty.pslice t).hasTy (.slice vs)) (ht : tag ≠ []) :
     (Ty.pslice t).app (.slice vs) tag
         = vs.flatMap (fun v => tag ++ appendVarUint (t.app v []).length ++ t.app v [])
     ∧ ∀ v ∈ vs, v.present = false →
         tag ++ appendVarUint (t.app v []).length ++ t.app v [] = tag ++ [0] :=
-  ⟨pslice_frames t vs tag hwf hty hr ht, fun v _ h => elemFrame_absent t v tag h⟩
+  ⟨pslice_frames t vs tag hwf hty (wf_pslice_elem_not_protoRep hwf) ht,
+    fun v _ h => elemFrame_absent t v tag h⟩
 
 /-- protobuf map (`ProtoMapCodec`): one frame per entry under the caller's tag,
 the entry body being the key under index 1 then the value under index 2 (each
@@ -141,7 +141,7 @@ def exVal : Val := .struct
     .int (-3), .ptr none ]
 
 theorem exTy_wf : exTy.wf := by
-  simp [exTy, Ty.wf, fieldsWf, validWidth, Ty.wt, Ty.isMap]
+  simp [exTy, Ty.wf, fieldsWf, validWidth, Ty.wt, Ty.isMap, Ty.isProtoSlice]
 
 theorem exTy_hasTy : exTy.hasTy exVal := by
   simp [exTy, exVal, Ty.hasTy, fieldsHaveTy, intRange, keysDistinct, Val.beq]
@@ -162,8 +162,8 @@ example : exTy.app exVal (appendTag .len 3)
 example : (Ty.pslice (.ptr (.str false))).app (.slice [.ptr (some (.str [97])), .ptr none]) (appendTag .len 5)
     = [.ptr (some (.str [97])), .ptr none].flatMap
         (fun v => appendTag .len 5 ++ appendVarUint ((Ty.ptr (.str false)).app v []).length ++ (Ty.ptr (.str false)).app v []) :=
-  (frame_proto_slice (.ptr (.str false)) _ _ (by simp [Ty.wf, Ty.wt, Ty.isMap]) (by simp [Ty.hasTy])
-    (by simp [Ty.deref, Ty.isProtoRep]) (append_ne_nil _)).1
+  (frame_proto_slice (.ptr (.str false)) _ _ (by simp [Ty.wf, Ty.wt, Ty.isMap, Ty.isProtoSlice])
+    (by simp [Ty.hasTy]) (append_ne_nil _)).1
 
 -- law 3
 example : (Ty.int 16).read .varint ((Ty.int 16).app (.int (-300)) [] ++ [1, 2, 3]) (.int 7)
@@ -178,7 +178,7 @@ example : ∃ payload,
     ∧ skip (payload ++ [9, 9]) .len = .ok payload.length :=
   field_skip_exact (.struct "P" [(1, "A", .uint 8), (2, "B", .str false), (3, "C", .lslice (.str false))])
     (.struct [.uint 7, .str [104, 105], .slice [.str [1], .str []]]) (appendTag .len 2) [9, 9]
-    (by simp [Ty.wf, fieldsWf, validWidth, Ty.wt, Ty.isMap])
+    (by simp [Ty.wf, fieldsWf, validWidth, Ty.wt, Ty.isMap, Ty.isProtoSlice])
     (by simp [Ty.hasTy, fieldsHaveTy])
     (by simp [Val.present]) (by simp [Ty.deref, Ty.isProtoRep]) (append_ne_nil _)
     (by simp [Ty.app, fieldsApp, Val.omit, frame, appendTag, WT.code, Ty.wt, Ty.size, frameSize,
@@ -195,14 +195,16 @@ example : (Ty.ptr (.ptr .bool)).wf ∧ (Ty.ptr (.ptr .bool)).hasTy (.ptr (some (
   simp [Ty.wf, Ty.hasTy, Ty.wt, Ty.app, Ty.isMap]
 
 /-- the element of a repeated field must not itself be a repeated form: a
-`ProtoSliceWrapper` of `ProtoSliceWrapper` (accepted) writes the inner elements
-under the outer tag, not one frame per outer element. -/
-example : (Ty.pslice (.pslice (.str false))).wf
+`ProtoSliceWrapper` of `ProtoSliceWrapper` would write the inner elements under
+the outer tag, not one frame per outer element. The `isProtoSlice` clause of
+`wf` (the builder's check) is what excludes it — which is why
+`frame_proto_slice` needs no separate side condition on the element. -/
+example : ¬ (Ty.pslice (.pslice (.str false))).wf
     ∧ (Ty.pslice (.pslice (.str false))).app (.slice [.slice [.str [1], .str [2]]]) [10]
         = [10, 1, 1, 10, 1, 2]
     ∧ [10] ++ appendVarUint ((Ty.pslice (.str false)).app (.slice [.str [1], .str [2]]) []).length
           ++ (Ty.pslice (.str false)).app (.slice [.str [1], .str [2]]) [] = [10, 2, 1, 2] := by
-  simp [Ty.wf, Ty.wt, Ty.isMap, Ty.app, frame, appendVarUint_small]
+  simp [Ty.wf, Ty.wt, Ty.isMap, Ty.isProtoSlice, Ty.app, frame, appendVarUint_small]
 
 /-- with an empty tag a length-delimited codec writes the bare body. -/
 example : (Ty.str false).app (.str [97]) [] = [97] := by simp [Ty.app, frame]
